@@ -1,697 +1,6 @@
-(* GENERATED by locktrans from rpc/*.go -- do not edit.
-   Lock programs (coq/Lock/LockCheck.v) of every function, method and closure.
-   sources:
-     answer.go 5f7838026293641909e901208b11523feaceca339505fc39fd132ae90f06455d
-     capability.go 3e4c5b20ce3c0c8f1e57460b1627c54415b4539c92a01e3a4200eae6855a57d1
-     server/answer.go 652c5ebeba0a2f3a3f23a25d7cf7a0164665f3235e2ad1ba60e088f847b72a7c
-     server/server.go e1e8b2b5b52e39c15e452952f8c3508304d3ef6ac20684d41d8f4e571cfa6340
-   functions whose body cannot touch a lock (calls to them are dropped):
-     capnp.Answer.Done capnp.Answer.Field capnp.Answer.Future capnp.Answer.PipelineSend$1 capnp.Answer.PipelineSend$2 capnp.CapabilityID.GoString capnp.CapabilityID.String capnp.Client.SendCall$1 capnp.Client.SendCall$2 capnp.Client.startCall$1 capnp.Client.startCall$2 capnp.Client.startCall$3 capnp.ErrorAnswer capnp.ErrorClient capnp.Future.Done capnp.Future.Field capnp.Future.transform capnp.ImmediateAnswer capnp.Interface.Capability capnp.Interface.Client capnp.Interface.IsValid capnp.Interface.Message capnp.Interface.ToPtr capnp.Interface.value capnp.Method.String capnp.NewClient capnp.NewInterface capnp.NewPromise capnp.NewPromisedClient capnp.PipelineOp.String capnp.Promise.Answer capnp.Promise.isJoined capnp.Promise.isPendingJoin capnp.Promise.isPendingResolution capnp.Promise.isResolved capnp.Promise.isUnresolved capnp.Promise.resolution capnp.SetClientLeakFunc capnp.Transform capnp.clientHook.isResolved capnp.clientPath.transform capnp.clientPathFromTransform capnp.errorClient.Brand capnp.errorClient.Send capnp.errorClient.Send$1 capnp.errorClient.Shutdown capnp.finalizeClient capnp.newClosedSignal capnp.pipelineClient.Shutdown capnp.resolution.client capnp.resolution.ptr capnp.resolution.struct_ server.Call.Ack server.Call.Args server.IsServer server.New server.Server.Brand server.Server.Send$1 server.Server.Send$2 server.Server.Send$3 server.Server.hasOngoing server.Server.nextID server.clientPath.transform server.clientPathFromTransform server.errorf server.newAnswerQueue server.newBlankStruct server.newCall server.newError server.queueCaller.PipelineSend$1 server.queueCaller.PipelineSend$2 server.queueCaller.PipelineSend$3 server.queueCaller.PipelineSend$4 server.sortedMethods.Len server.sortedMethods.Less server.sortedMethods.Swap server.sortedMethods.find server.sortedMethods.find$1 server.structReturner.answer$1
-*)
+(* GENERATED stub: locktrans failed closed on the current source *)
 From Coq Require Import List String.
 From CV Require Import Lock.LockCheck.
 Import ListNotations.
 Local Open Scope string_scope.
-
-(* capnp.Answer.Client  answer.go:407 *)
-Definition core_prog_body_0 : stmt :=
-  (SSeq (SAct (AMark 408)) (SSeq (SCall 32 (* capnp.Future.Client *) SSkip SSkip) (SSeq (SAct (AMark 408)) (SSeq (SReturn 0) (SReturn 0))))).
-
-(* capnp.Answer.Done  answer.go:393 *)
-Definition core_prog_body_1 : stmt :=
-  (SSeq (SAct (AMark 394)) (SSeq (SReturn 0) (SReturn 0))).
-
-(* capnp.Answer.Field  answer.go:413 *)
-Definition core_prog_body_2 : stmt :=
-  (SSeq (SAct (AMark 414)) (SSeq (SReturn 0) (SReturn 0))).
-
-(* capnp.Answer.Future  answer.go:388 *)
-Definition core_prog_body_3 : stmt :=
-  (SSeq (SAct (AMark 389)) (SSeq (SReturn 0) (SReturn 0))).
-
-(* capnp.Answer.PipelineRecv  answer.go:475 *)
-Definition core_prog_body_4 : stmt :=
-  (SSeq (SAct (AMark 477)) (SSeq (SAct (ALock 1)) (SSeq (SLoop (SSeq (SAct (AMark 491)) (SChoice (SSeq (SAct (AMark 483)) (SSeq (SAct (AUnlock 1)) (SSeq (SAct (AMark 484)) (SSeq (SAct (AWait)) (SSeq (SChoice SSkip (SSeq (SAct (AMark 487)) (SSeq (SCall 63 (* capnp.Recv.Reject *) SSkip SSkip) (SSeq (SAct (AMark 488)) (SReturn 0))))) (SSeq (SAct (AMark 490)) (SAct (ALock 1)))))))) (SChoice (SSeq (SAct (AMark 493)) (SSeq (SAct (AUnlock 1)) (SSeq (SAct (AMark 494)) (SSeq (SAct (ARebind 1)) (SSeq (SAct (AMark 495)) (SAct (ALock 1))))))) SBreak)))) (SSeq (SAct (AMark 524)) (SSeq (SChoice (SSeq (SAct (AMark 504)) (SSeq (SAct (AUnlock 1)) (SSeq (SAct (AMark 505)) (SSeq (SAct (ACallout)) (SSeq (SAct (AMark 506)) (SSeq (SAct (ALock 1)) (SSeq (SAct (AMark 511)) (SSeq (SAct (AUnlock 1)) (SSeq (SAct (AMark 512)) (SReturn 0)))))))))) (SChoice (SSeq (SAct (AMark 515)) (SSeq (SAct (AUnlock 1)) (SSeq (SAct (AMark 516)) (SSeq (SAct (AWait)) (SSeq (SChoice SSkip (SSeq (SAct (AMark 519)) (SSeq (SCall 63 (* capnp.Recv.Reject *) SSkip SSkip) (SSeq (SAct (AMark 520)) (SReturn 0))))) (SSeq (SAct (AMark 522)) (SSeq (SAct (ALock 1)) (SSeq (SAct (AMark 526)) (SSeq (SAct (AUnlock 1)) (SSeq (SAct (AMark 527)) (SSeq (SCall 14 (* capnp.Client.RecvCall *) SSkip SSkip) (SSeq (SAct (AMark 527)) (SReturn 0))))))))))))) (SChoice (SSeq (SAct (AMark 526)) (SSeq (SAct (AUnlock 1)) (SSeq (SAct (AMark 527)) (SSeq (SCall 14 (* capnp.Client.RecvCall *) SSkip SSkip) (SSeq (SAct (AMark 527)) (SReturn 0)))))) (SSeq (SAct (AMark 529)) SPanic)))) (SReturn 0)))))).
-
-(* capnp.Answer.PipelineSend  answer.go:418 *)
-Definition core_prog_body_5 : stmt :=
-  (SSeq (SAct (AMark 420)) (SSeq (SAct (ALock 1)) (SSeq (SLoop (SSeq (SAct (AMark 433)) (SChoice (SSeq (SAct (AMark 426)) (SSeq (SAct (AUnlock 1)) (SSeq (SAct (AMark 427)) (SSeq (SAct (AWait)) (SSeq (SChoice SSkip (SSeq (SAct (AMark 430)) (SReturn 0))) (SSeq (SAct (AMark 432)) (SAct (ALock 1)))))))) (SChoice (SSeq (SAct (AMark 435)) (SSeq (SAct (AUnlock 1)) (SSeq (SAct (AMark 436)) (SSeq (SAct (ARebind 1)) (SSeq (SAct (AMark 437)) (SAct (ALock 1))))))) SBreak)))) (SSeq (SAct (AMark 465)) (SSeq (SChoice (SSeq (SAct (AMark 446)) (SSeq (SAct (AUnlock 1)) (SSeq (SAct (AMark 447)) (SSeq (SAct (ACallout)) (SSeq (SAct (AMark 448)) (SSeq (SAct (ALock 1)) (SSeq (SAct (AMark 453)) (SSeq (SAct (AUnlock 1)) (SSeq (SAct (AMark 454)) (SReturn 0)))))))))) (SChoice (SSeq (SAct (AMark 457)) (SSeq (SAct (AUnlock 1)) (SSeq (SAct (AMark 458)) (SSeq (SAct (AWait)) (SSeq (SChoice SSkip (SSeq (SAct (AMark 461)) (SReturn 0))) (SSeq (SAct (AMark 463)) (SSeq (SAct (ALock 1)) (SSeq (SAct (AMark 467)) (SSeq (SAct (AUnlock 1)) (SSeq (SAct (AMark 468)) (SSeq (SCall 17 (* capnp.Client.SendCall *) SSkip SSkip) (SSeq (SAct (AMark 468)) (SReturn 0))))))))))))) (SChoice (SSeq (SAct (AMark 467)) (SSeq (SAct (AUnlock 1)) (SSeq (SAct (AMark 468)) (SSeq (SCall 17 (* capnp.Client.SendCall *) SSkip SSkip) (SSeq (SAct (AMark 468)) (SReturn 0)))))) (SSeq (SAct (AMark 470)) SPanic)))) (SReturn 0)))))).
-
-(* capnp.Answer.PipelineSend$1  answer.go:430 *)
-Definition core_prog_body_6 : stmt :=
-  (SReturn 0).
-
-(* capnp.Answer.PipelineSend$2  answer.go:461 *)
-Definition core_prog_body_7 : stmt :=
-  (SReturn 0).
-
-(* capnp.Answer.Struct  answer.go:399 *)
-Definition core_prog_body_8 : stmt :=
-  (SSeq (SAct (AMark 400)) (SSeq (SCall 35 (* capnp.Future.Struct *) SSkip SSkip) (SSeq (SAct (AMark 400)) (SSeq (SReturn 0) (SReturn 0))))).
-
-(* capnp.CapabilityID.GoString  capability.go:84 *)
-Definition core_prog_body_9 : stmt :=
-  (SSeq (SAct (AMark 85)) (SSeq (SReturn 0) (SReturn 0))).
-
-(* capnp.CapabilityID.String  capability.go:79 *)
-Definition core_prog_body_10 : stmt :=
-  (SSeq (SAct (AMark 80)) (SSeq (SReturn 0) (SReturn 0))).
-
-(* capnp.Client.AddRef  capability.go:321 *)
-Definition core_prog_body_11 : stmt :=
-  (SSeq (SChoice (SSeq (SAct (AMark 323)) (SReturn 0)) SSkip) (SSeq (SAct (AMark 326)) (SSeq (SAct (ALock 3)) (SSeq (SChoice (SSeq (SAct (AMark 328)) SPanic) SSkip) (SSeq (SChoice (SSeq (SAct (AMark 325)) (SSeq (SAct (AUnlock 3)) (SSeq (SAct (AMark 331)) (SReturn 0)))) SSkip) (SSeq (SAct (AMark 333)) (SSeq (SAct (ALock 4)) (SSeq (SAct (AMark 334)) (SSeq (SCall 85 (* capnp.resolveHook *) SSkip (SSeq (SAct (AMark 325)) (SSeq (SAct (AUnlock 3)) (SSeq (SAct (AMark 336)) (SReturn 0))))) (SSeq (SAct (AMark 339)) (SSeq (SAct (AUnlock 4)) (SSeq (SAct (AMark 325)) (SSeq (SAct (AUnlock 3)) (SSeq (SAct (AMark 346)) (SSeq (SReturn 0) (SSeq (SAct (AMark 325)) (SSeq (SAct (AUnlock 3)) (SReturn 0)))))))))))))))))).
-
-(* capnp.Client.IsSame  capability.go:289 *)
-Definition core_prog_body_12 : stmt :=
-  (SSeq (SAct (AMark 290)) (SSeq (SCall 23 (* capnp.Client.peek *) SSkip SSkip) (SSeq (SChoice (SSeq (SAct (AMark 292)) SPanic) SSkip) (SSeq (SAct (AMark 294)) (SSeq (SCall 23 (* capnp.Client.peek *) SSkip SSkip) (SSeq (SChoice (SSeq (SAct (AMark 296)) SPanic) SSkip) (SSeq (SAct (AMark 298)) (SSeq (SReturn 0) (SReturn 0))))))))).
-
-(* capnp.Client.IsValid  capability.go:280 *)
-Definition core_prog_body_13 : stmt :=
-  (SSeq (SAct (AMark 281)) (SSeq (SCall 23 (* capnp.Client.peek *) SSkip SSkip) (SSeq (SAct (AMark 282)) (SSeq (SReturn 0) (SReturn 0))))).
-
-(* capnp.Client.RecvCall  capability.go:263 *)
-Definition core_prog_body_14 : stmt :=
-  (SSeq (SAct (AMark 264)) (SSeq (SCall 24 (* capnp.Client.startCall *) SSkip SSkip) (SSeq (SChoice (SSeq (SAct (AMark 267)) (SSeq (SCall 63 (* capnp.Recv.Reject *) SSkip SSkip) (SSeq (SAct (AMark 265)) (SSeq (SAct (ACallout)) (SSeq (SAct (AMark 268)) (SReturn 0)))))) SSkip) (SSeq (SChoice (SSeq (SAct (AMark 271)) (SSeq (SCall 63 (* capnp.Recv.Reject *) SSkip SSkip) (SSeq (SAct (AMark 265)) (SSeq (SAct (ACallout)) (SSeq (SAct (AMark 272)) (SReturn 0)))))) SSkip) (SSeq (SAct (AMark 274)) (SSeq (SAct (ACallout)) (SSeq (SAct (AMark 265)) (SSeq (SAct (ACallout)) (SSeq (SAct (AMark 274)) (SSeq (SReturn 0) (SSeq (SAct (AMark 265)) (SSeq (SAct (ACallout)) (SReturn 0))))))))))))).
-
-(* capnp.Client.Release  capability.go:429 *)
-Definition core_prog_body_15 : stmt :=
-  (SSeq (SChoice (SSeq (SAct (AMark 431)) (SReturn 0)) SSkip) (SSeq (SAct (AMark 433)) (SSeq (SAct (ALock 3)) (SSeq (SChoice (SSeq (SAct (AMark 435)) (SSeq (SAct (AUnlock 3)) (SSeq (SAct (AMark 436)) (SReturn 0)))) SSkip) (SSeq (SAct (AMark 439)) (SSeq (SAct (ALock 4)) (SSeq (SAct (AMark 440)) (SSeq (SCall 85 (* capnp.resolveHook *) SSkip (SSeq (SAct (AMark 442)) (SSeq (SAct (AUnlock 3)) (SSeq (SAct (AMark 443)) (SReturn 0))))) (SSeq (SChoice (SSeq (SAct (AMark 449)) (SSeq (SAct (AUnlock 4)) (SSeq (SAct (AMark 450)) (SSeq (SAct (AUnlock 3)) (SSeq (SAct (AMark 451)) (SReturn 0)))))) SSkip) (SSeq (SAct (AMark 456)) (SSeq (SAct (AUnlock 4)) (SSeq (SAct (AMark 457)) (SSeq (SAct (AUnlock 3)) (SSeq (SAct (AMark 458)) (SSeq (SAct (AWait)) (SSeq (SAct (AMark 459)) (SSeq (SAct (ACallout)) (SReturn 0)))))))))))))))))).
-
-(* capnp.Client.Resolve  capability.go:302 *)
-Definition core_prog_body_16 : stmt :=
-  (SSeq (SLoop (SSeq (SAct (AMark 304)) (SSeq (SCall 23 (* capnp.Client.peek *) SSkip SSkip) (SSeq (SChoice (SSeq (SAct (AMark 306)) (SReturn 0)) SSkip) (SSeq (SChoice (SSeq (SAct (AMark 309)) (SReturn 0)) SSkip) (SSeq (SAct (AMark 311)) (SSeq (SAct (AWait)) (SChoice SSkip (SSeq (SAct (AMark 314)) (SReturn 0)))))))))) (SReturn 0)).
-
-(* capnp.Client.SendCall  capability.go:246 *)
-Definition core_prog_body_17 : stmt :=
-  (SSeq (SAct (AMark 247)) (SSeq (SCall 24 (* capnp.Client.startCall *) SSkip SSkip) (SSeq (SChoice (SSeq (SAct (AMark 248)) (SSeq (SAct (ACallout)) (SSeq (SAct (AMark 250)) (SReturn 0)))) SSkip) (SSeq (SChoice (SSeq (SAct (AMark 248)) (SSeq (SAct (ACallout)) (SSeq (SAct (AMark 253)) (SReturn 0)))) SSkip) (SSeq (SAct (AMark 255)) (SSeq (SAct (ACallout)) (SSeq (SAct (AMark 248)) (SSeq (SAct (ACallout)) (SSeq (SAct (AMark 255)) (SSeq (SReturn 0) (SSeq (SAct (AMark 248)) (SSeq (SAct (ACallout)) (SReturn 0))))))))))))).
-
-(* capnp.Client.SendCall$1  capability.go:250 *)
-Definition core_prog_body_18 : stmt :=
-  (SReturn 0).
-
-(* capnp.Client.SendCall$2  capability.go:253 *)
-Definition core_prog_body_19 : stmt :=
-  (SReturn 0).
-
-(* capnp.Client.State  capability.go:364 *)
-Definition core_prog_body_20 : stmt :=
-  (SSeq (SAct (AMark 365)) (SSeq (SCall 24 (* capnp.Client.startCall *) SSkip SSkip) (SSeq (SChoice (SSeq (SAct (AMark 366)) (SSeq (SAct (ACallout)) (SSeq (SAct (AMark 368)) (SReturn 0)))) SSkip) (SSeq (SAct (AMark 371)) (SSeq (SAct (ACallout)) (SSeq (SAct (AMark 366)) (SSeq (SAct (ACallout)) (SSeq (SAct (AMark 370)) (SSeq (SReturn 0) (SSeq (SAct (AMark 366)) (SSeq (SAct (ACallout)) (SReturn 0)))))))))))).
-
-(* capnp.Client.String  capability.go:393 *)
-Definition core_prog_body_21 : stmt :=
-  (SSeq (SChoice (SSeq (SAct (AMark 395)) (SReturn 0)) SSkip) (SSeq (SAct (AMark 397)) (SSeq (SAct (ALock 3)) (SSeq (SChoice (SSeq (SAct (AMark 399)) (SSeq (SAct (AUnlock 3)) (SSeq (SAct (AMark 400)) (SReturn 0)))) SSkip) (SSeq (SChoice (SSeq (SAct (AMark 403)) (SSeq (SAct (AUnlock 3)) (SSeq (SAct (AMark 404)) (SReturn 0)))) SSkip) (SSeq (SAct (AMark 406)) (SSeq (SAct (ALock 4)) (SSeq (SAct (AMark 407)) (SSeq (SCall 85 (* capnp.resolveHook *) SSkip (SSeq (SAct (AMark 409)) (SSeq (SAct (AUnlock 3)) (SSeq (SAct (AMark 410)) (SReturn 0))))) (SSeq (SAct (AMark 418)) (SSeq (SAct (AUnlock 4)) (SSeq (SAct (AMark 419)) (SSeq (SAct (AUnlock 3)) (SSeq (SAct (AMark 420)) (SSeq (SReturn 0) (SReturn 0)))))))))))))))).
-
-(* capnp.Client.WeakRef  capability.go:351 *)
-Definition core_prog_body_22 : stmt :=
-  (SSeq (SAct (AMark 352)) (SSeq (SCall 23 (* capnp.Client.peek *) SSkip SSkip) (SSeq (SChoice (SSeq (SAct (AMark 354)) SPanic) SSkip) (SSeq (SChoice (SSeq (SAct (AMark 357)) (SReturn 0)) SSkip) (SSeq (SAct (AMark 359)) (SSeq (SReturn 0) (SReturn 0))))))).
-
-(* capnp.Client.peek  capability.go:202 *)
-Definition core_prog_body_23 : stmt :=
-  (SSeq (SChoice (SSeq (SAct (AMark 204)) (SReturn 0)) SSkip) (SSeq (SAct (AMark 207)) (SSeq (SAct (ALock 3)) (SSeq (SChoice (SSeq (SAct (AMark 206)) (SSeq (SAct (AUnlock 3)) (SSeq (SAct (AMark 209)) (SReturn 0)))) SSkip) (SSeq (SAct (AMark 211)) (SSeq (SAct (ALock 4)) (SSeq (SAct (AMark 212)) (SSeq (SCall 85 (* capnp.resolveHook *) SSkip (SSeq (SAct (AMark 206)) (SSeq (SAct (AUnlock 3)) (SSeq (SAct (AMark 214)) (SReturn 0))))) (SSeq (SAct (AMark 217)) (SSeq (SAct (AUnlock 4)) (SSeq (SAct (AMark 206)) (SSeq (SAct (AUnlock 3)) (SSeq (SAct (AMark 218)) (SSeq (SReturn 0) (SSeq (SAct (AMark 206)) (SSeq (SAct (AUnlock 3)) (SReturn 0))))))))))))))))).
-
-(* capnp.Client.startCall  capability.go:175 *)
-Definition core_prog_body_24 : stmt :=
-  (SSeq (SChoice (SSeq (SAct (AMark 177)) (SReturn 0)) SSkip) (SSeq (SAct (AMark 180)) (SSeq (SAct (ALock 3)) (SSeq (SChoice (SSeq (SAct (AMark 179)) (SSeq (SAct (AUnlock 3)) (SSeq (SAct (AMark 182)) (SReturn 0)))) SSkip) (SSeq (SAct (AMark 184)) (SSeq (SAct (ALock 4)) (SSeq (SAct (AMark 185)) (SSeq (SCall 85 (* capnp.resolveHook *) SSkip (SSeq (SAct (AMark 179)) (SSeq (SAct (AUnlock 3)) (SSeq (SAct (AMark 187)) (SReturn 0))))) (SSeq (SAct (AMark 190)) (SSeq (SAct (AUnlock 4)) (SSeq (SAct (AMark 179)) (SSeq (SAct (AUnlock 3)) (SSeq (SAct (AMark 192)) (SSeq (SReturn 0) (SSeq (SAct (AMark 179)) (SSeq (SAct (AUnlock 3)) (SReturn 0))))))))))))))))).
-
-(* capnp.Client.startCall$1  capability.go:177 *)
-Definition core_prog_body_25 : stmt :=
-  (SReturn 0).
-
-(* capnp.Client.startCall$2  capability.go:182 *)
-Definition core_prog_body_26 : stmt :=
-  (SReturn 0).
-
-(* capnp.Client.startCall$3  capability.go:187 *)
-Definition core_prog_body_27 : stmt :=
-  (SReturn 0).
-
-(* capnp.Client.startCall$4  capability.go:192 *)
-Definition core_prog_body_28 : stmt :=
-  (SSeq (SAct (AMark 193)) (SSeq (SAct (ALock 4)) (SSeq (SAct (AMark 198)) (SSeq (SAct (AUnlock 4)) (SReturn 0))))).
-
-(* capnp.ClientPromise.Fulfill  capability.go:526 *)
-Definition core_prog_body_29 : stmt :=
-  (SSeq (SChoice (SSeq (SAct (AMark 530)) (SSeq (SAct (ALock 3)) (SSeq (SChoice (SSeq (SAct (AMark 532)) (SSeq (SAct (AUnlock 3)) (SSeq (SAct (AMark 533)) SPanic))) SSkip) (SSeq (SAct (AMark 537)) (SAct (AUnlock 3)))))) SSkip) (SSeq (SAct (AMark 541)) (SSeq (SAct (ALock 4)) (SSeq (SAct (AMark 542)) (SSeq (SChoice (SSeq (SAct (AMark 543)) (SSeq (SAct (AUnlock 4)) (SSeq (SAct (AMark 544)) SPanic))) SSkip) (SSeq (SChoice (SSeq (SAct (AMark 551)) (SSeq (SAct (AUnlock 4)) (SSeq (SAct (AMark 552)) (SReturn 0)))) SSkip) (SSeq (SAct (AMark 559)) (SSeq (SCall 85 (* capnp.resolveHook *) (SSeq (SAct (AMark 562)) (SAct (AUnlock 4))) SSkip) (SSeq (SAct (AMark 564)) (SSeq (SAct (AWait)) (SSeq (SAct (AMark 565)) (SSeq (SAct (ACallout)) (SReturn 0))))))))))))).
-
-(* capnp.ErrorAnswer  answer.go:366 *)
-Definition core_prog_body_30 : stmt :=
-  (SSeq (SAct (AMark 373)) (SSeq (SReturn 0) (SReturn 0))).
-
-(* capnp.ErrorClient  capability.go:761 *)
-Definition core_prog_body_31 : stmt :=
-  (SSeq (SChoice (SSeq (SAct (AMark 763)) SPanic) SSkip) (SSeq (SAct (AMark 774)) (SSeq (SReturn 0) (SReturn 0)))).
-
-(* capnp.Future.Client  answer.go:584 *)
-Definition core_prog_body_32 : stmt :=
-  (SSeq (SAct (AMark 586)) (SSeq (SAct (ALock 1)) (SSeq (SLoop (SSeq (SAct (AMark 595)) (SChoice (SSeq (SAct (AMark 592)) (SSeq (SAct (AUnlock 1)) (SSeq (SAct (AMark 593)) (SSeq (SAct (AWait)) (SSeq (SAct (AMark 594)) (SAct (ALock 1))))))) (SChoice (SSeq (SAct (AMark 597)) (SSeq (SAct (AUnlock 1)) (SSeq (SAct (AMark 598)) (SSeq (SAct (ARebind 1)) (SSeq (SAct (AMark 599)) (SAct (ALock 1))))))) SBreak)))) (SSeq (SAct (AMark 627)) (SSeq (SChoice (SSeq (SAct (AMark 607)) (SSeq (SChoice (SSeq (SAct (AMark 609)) (SSeq (SAct (AUnlock 1)) (SSeq (SAct (AMark 610)) (SReturn 0)))) SSkip) (SSeq (SAct (AMark 620)) (SSeq (SAct (AUnlock 1)) (SSeq (SAct (AMark 621)) (SReturn 0)))))) (SChoice (SSeq (SAct (AMark 623)) (SSeq (SAct (AUnlock 1)) (SSeq (SAct (AMark 624)) (SSeq (SAct (AWait)) (SSeq (SAct (AMark 625)) (SSeq (SAct (ALock 1)) (SSeq (SAct (AMark 629)) (SSeq (SAct (AUnlock 1)) (SSeq (SAct (AMark 630)) (SReturn 0)))))))))) (SChoice (SSeq (SAct (AMark 629)) (SSeq (SAct (AUnlock 1)) (SSeq (SAct (AMark 630)) (SReturn 0)))) (SSeq (SAct (AMark 632)) SPanic)))) (SReturn 0)))))).
-
-(* capnp.Future.Done  answer.go:559 *)
-Definition core_prog_body_33 : stmt :=
-  (SSeq (SAct (AMark 560)) (SSeq (SReturn 0) (SReturn 0))).
-
-(* capnp.Future.Field  answer.go:638 *)
-Definition core_prog_body_34 : stmt :=
-  (SSeq (SAct (AMark 639)) (SSeq (SReturn 0) (SReturn 0))).
-
-(* capnp.Future.Struct  answer.go:565 *)
-Definition core_prog_body_35 : stmt :=
-  (SSeq (SAct (AMark 567)) (SSeq (SAct (AWait)) (SSeq (SAct (AMark 568)) (SSeq (SAct (ALock 1)) (SSeq (SLoop (SSeq (SAct (AMark 571)) (SSeq (SAct (AUnlock 1)) (SSeq (SAct (AMark 572)) (SSeq (SAct (ARebind 1)) (SSeq (SAct (AMark 573)) (SAct (ALock 1)))))))) (SSeq (SAct (AMark 576)) (SSeq (SAct (AUnlock 1)) (SSeq (SAct (AMark 577)) (SSeq (SReturn 0) (SReturn 0)))))))))).
-
-(* capnp.Future.transform  answer.go:543 *)
-Definition core_prog_body_36 : stmt :=
-  (SSeq (SChoice (SSeq (SAct (AMark 545)) (SReturn 0)) SSkip) (SSeq (SLoop SSkip) (SSeq (SLoop SSkip) (SSeq (SAct (AMark 555)) (SSeq (SReturn 0) (SReturn 0)))))).
-
-(* capnp.ImmediateAnswer  answer.go:377 *)
-Definition core_prog_body_37 : stmt :=
-  (SSeq (SAct (AMark 384)) (SSeq (SReturn 0) (SReturn 0))).
-
-(* capnp.Interface.Capability  capability.go:49 *)
-Definition core_prog_body_38 : stmt :=
-  (SSeq (SAct (AMark 50)) (SSeq (SReturn 0) (SReturn 0))).
-
-(* capnp.Interface.Client  capability.go:63 *)
-Definition core_prog_body_39 : stmt :=
-  (SSeq (SAct (AMark 64)) (SSeq (SChoice (SSeq (SAct (AMark 66)) (SReturn 0)) SSkip) (SSeq (SChoice (SSeq (SAct (AMark 70)) (SReturn 0)) SSkip) (SSeq (SAct (AMark 72)) (SSeq (SReturn 0) (SReturn 0)))))).
-
-(* capnp.Interface.IsValid  capability.go:44 *)
-Definition core_prog_body_40 : stmt :=
-  (SSeq (SAct (AMark 45)) (SSeq (SReturn 0) (SReturn 0))).
-
-(* capnp.Interface.Message  capability.go:36 *)
-Definition core_prog_body_41 : stmt :=
-  (SSeq (SChoice (SSeq (SAct (AMark 38)) (SReturn 0)) SSkip) (SSeq (SAct (AMark 40)) (SSeq (SReturn 0) (SReturn 0)))).
-
-(* capnp.Interface.ToPtr  capability.go:26 *)
-Definition core_prog_body_42 : stmt :=
-  (SSeq (SAct (AMark 27)) (SSeq (SReturn 0) (SReturn 0))).
-
-(* capnp.Interface.value  capability.go:54 *)
-Definition core_prog_body_43 : stmt :=
-  (SSeq (SChoice (SSeq (SAct (AMark 56)) (SReturn 0)) SSkip) (SSeq (SAct (AMark 58)) (SSeq (SReturn 0) (SReturn 0)))).
-
-(* capnp.Method.String  capability.go:736 *)
-Definition core_prog_body_44 : stmt :=
-  (SSeq (SAct (AMark 751)) (SSeq (SReturn 0) (SReturn 0))).
-
-(* capnp.NewClient  capability.go:126 *)
-Definition core_prog_body_45 : stmt :=
-  (SSeq (SChoice (SSeq (SAct (AMark 128)) (SReturn 0)) SSkip) (SSeq (SAct (AMark 143)) (SSeq (SReturn 0) (SReturn 0)))).
-
-(* capnp.NewInterface  capability.go:21 *)
-Definition core_prog_body_46 : stmt :=
-  (SSeq (SAct (AMark 22)) (SSeq (SReturn 0) (SReturn 0))).
-
-(* capnp.NewPromise  answer.go:99 *)
-Definition core_prog_body_47 : stmt :=
-  (SSeq (SChoice (SSeq (SAct (AMark 101)) SPanic) SSkip) (SSeq (SAct (AMark 112)) (SSeq (SReturn 0) (SReturn 0)))).
-
-(* capnp.NewPromisedClient  capability.go:153 *)
-Definition core_prog_body_48 : stmt :=
-  (SSeq (SChoice (SSeq (SAct (AMark 155)) SPanic) SSkip) (SSeq (SAct (AMark 169)) (SSeq (SReturn 0) (SReturn 0)))).
-
-(* capnp.PipelineOp.String  answer.go:687 *)
-Definition core_prog_body_49 : stmt :=
-  (SSeq (SChoice (SSeq (SAct (AMark 692)) (SReturn 0)) SSkip) (SSeq (SAct (AMark 695)) (SSeq (SReturn 0) (SReturn 0)))).
-
-(* capnp.Promise.Answer  answer.go:311 *)
-Definition core_prog_body_50 : stmt :=
-  (SSeq (SAct (AMark 312)) (SSeq (SReturn 0) (SReturn 0))).
-
-(* capnp.Promise.Fulfill  answer.go:157 *)
-Definition core_prog_body_51 : stmt :=
-  (SSeq (SAct (AMark 159)) (SSeq (SAct (ALock 1)) (SSeq (SAct (AMark 160)) (SSeq (SChoice (SSeq (SAct (AMark 161)) SPanic) SSkip) (SSeq (SAct (AMark 163)) (SSeq (SCall 61 (* capnp.Promise.resolve *) SSkip SSkip) (SSeq (SAct (AMark 158)) (SSeq (SAct (AUnlock 1)) (SReturn 0))))))))).
-
-(* capnp.Promise.Join  answer.go:232 *)
-Definition core_prog_body_52 : stmt :=
-  (SSeq (SAct (AMark 234)) (SSeq (SAct (ALock 1)) (SSeq (SAct (AMark 235)) (SSeq (SChoice (SSeq (SAct (AMark 236)) SPanic) SSkip) (SSeq (SChoice (SSeq (SAct (AMark 244)) (SSeq (SAct (AUnlock 1)) (SSeq (SAct (AMark 245)) (SSeq (SAct (AWait)) (SSeq (SAct (AMark 246)) (SAct (ALock 1))))))) SSkip) (SSeq (SAct (AMark 251)) (SSeq (SAct (ALock 2)) (SSeq (SLoop (SSeq (SAct (AMark 283)) (SChoice SBreak (SChoice (SSeq (SAct (AMark 260)) (SSeq (SAct (AUnlock 2)) (SSeq (SAct (AMark 264)) (SSeq (SAct (AUnlock 1)) (SSeq (SAct (AMark 265)) (SSeq (SAct (AWait)) (SSeq (SAct (AMark 266)) (SSeq (SAct (ALock 1)) (SSeq (SAct (AMark 267)) (SAct (ALock 2))))))))))) (SChoice (SSeq (SAct (AMark 270)) (SSeq (SAct (AUnlock 2)) (SSeq (SAct (AMark 274)) (SSeq (SAct (AUnlock 1)) (SSeq (SAct (AMark 275)) (SSeq (SAct (AWait)) (SSeq (SAct (AMark 276)) (SSeq (SAct (ALock 1)) (SSeq (SAct (AMark 277)) (SAct (ALock 2))))))))))) (SChoice (SSeq (SAct (AMark 280)) (SSeq (SAct (AUnlock 2)) (SSeq (SAct (AMark 281)) (SSeq (SCall 61 (* capnp.Promise.resolve *) SSkip SSkip) (SSeq (SAct (AMark 233)) (SSeq (SAct (AUnlock 1)) (SSeq (SAct (AMark 282)) (SReturn 0)))))))) (SChoice (SSeq (SAct (AMark 285)) (SSeq (SAct (AUnlock 2)) (SSeq (SAct (AMark 286)) (SSeq (SAct (ARebind 2)) (SSeq (SAct (AMark 287)) (SAct (ALock 2))))))) (SSeq (SAct (AMark 289)) SPanic)))))))) (SSeq (SLoop SSkip) (SSeq (SAct (AMark 306)) (SSeq (SAct (AUnlock 2)) (SSeq (SAct (AMark 233)) (SSeq (SAct (AUnlock 1)) (SReturn 0)))))))))))))).
-
-(* capnp.Promise.Reject  answer.go:171 *)
-Definition core_prog_body_53 : stmt :=
-  (SSeq (SChoice (SSeq (SAct (AMark 173)) SPanic) SSkip) (SSeq (SAct (AMark 176)) (SSeq (SAct (ALock 1)) (SSeq (SAct (AMark 177)) (SSeq (SChoice (SSeq (SAct (AMark 178)) SPanic) SSkip) (SSeq (SAct (AMark 180)) (SSeq (SCall 61 (* capnp.Promise.resolve *) SSkip SSkip) (SSeq (SAct (AMark 175)) (SSeq (SAct (AUnlock 1)) (SReturn 0)))))))))).
-
-(* capnp.Promise.ReleaseClients  answer.go:322 *)
-Definition core_prog_body_54 : stmt :=
-  (SSeq (SAct (AMark 323)) (SSeq (SAct (AWait)) (SSeq (SAct (AMark 324)) (SSeq (SAct (ALock 1)) (SSeq (SChoice (SSeq (SAct (AMark 326)) (SSeq (SAct (AUnlock 1)) (SSeq (SAct (AMark 327)) (SReturn 0)))) SSkip) (SSeq (SLoop (SSeq (SAct (AMark 332)) (SSeq (SAct (AUnlock 1)) (SSeq (SAct (AMark 333)) (SSeq (SAct (ARebind 1)) (SSeq (SAct (AMark 334)) (SAct (ALock 1)))))))) (SSeq (SChoice (SSeq (SAct (AMark 338)) (SSeq (SAct (AUnlock 1)) (SSeq (SAct (AMark 339)) (SReturn 0)))) SSkip) (SSeq (SAct (AMark 343)) (SSeq (SAct (AUnlock 1)) (SSeq (SLoop (SLoop (SSeq (SAct (AMark 346)) (SCall 15 (* capnp.Client.Release *) SSkip SSkip)))) (SReturn 0))))))))))).
-
-(* capnp.Promise.isJoined  answer.go:141 *)
-Definition core_prog_body_55 : stmt :=
-  (SSeq (SAct (AMark 142)) (SSeq (SReturn 0) (SReturn 0))).
-
-(* capnp.Promise.isPendingJoin  answer.go:129 *)
-Definition core_prog_body_56 : stmt :=
-  (SSeq (SAct (AMark 130)) (SSeq (SReturn 0) (SReturn 0))).
-
-(* capnp.Promise.isPendingResolution  answer.go:123 *)
-Definition core_prog_body_57 : stmt :=
-  (SSeq (SAct (AMark 124)) (SSeq (SReturn 0) (SReturn 0))).
-
-(* capnp.Promise.isResolved  answer.go:135 *)
-Definition core_prog_body_58 : stmt :=
-  (SSeq (SAct (AMark 136)) (SSeq (SReturn 0) (SReturn 0))).
-
-(* capnp.Promise.isUnresolved  answer.go:117 *)
-Definition core_prog_body_59 : stmt :=
-  (SSeq (SAct (AMark 118)) (SSeq (SReturn 0) (SReturn 0))).
-
-(* capnp.Promise.resolution  answer.go:148 *)
-Definition core_prog_body_60 : stmt :=
-  (SSeq (SAct (AMark 149)) (SSeq (SReturn 0) (SReturn 0))).
-
-(* capnp.Promise.resolve  answer.go:185 *)
-Definition core_prog_body_61 : stmt :=
-  (SSeq (SChoice (SSeq (SAct (AMark 196)) (SSeq (SAct (AUnlock 1)) (SSeq (SLoop (SSeq (SAct (AMark 199)) (SLoop (SSeq (SAct (AMark 201)) (SCall 29 (* capnp.ClientPromise.Fulfill *) SSkip SSkip))))) (SSeq (SChoice (SSeq (SAct (AMark 206)) (SAct (AWait))) SSkip) (SSeq (SAct (AMark 208)) (SAct (ALock 1))))))) SSkip) (SSeq (SLoop SSkip) (SReturn 0))).
-
-(* capnp.Recv.AllocResults  capability.go:678 *)
-Definition core_prog_body_62 : stmt :=
-  (SSeq (SAct (AMark 679)) (SSeq (SAct (ACallout)) (SSeq (SAct (AMark 679)) (SSeq (SReturn 0) (SReturn 0))))).
-
-(* capnp.Recv.Reject  capability.go:689 *)
-Definition core_prog_body_63 : stmt :=
-  (SSeq (SChoice (SSeq (SAct (AMark 691)) SPanic) SSkip) (SSeq (SAct (AMark 693)) (SSeq (SAct (ACallout)) (SSeq (SAct (AMark 694)) (SSeq (SAct (ACallout)) (SReturn 0)))))).
-
-(* capnp.Recv.Return  capability.go:683 *)
-Definition core_prog_body_64 : stmt :=
-  (SSeq (SAct (AMark 684)) (SSeq (SAct (ACallout)) (SSeq (SAct (AMark 685)) (SSeq (SAct (ACallout)) (SReturn 0))))).
-
-(* capnp.SetClientLeakFunc  capability.go:482 *)
-Definition core_prog_body_65 : stmt :=
-  (SReturn 0).
-
-(* capnp.Transform  answer.go:700 *)
-Definition core_prog_body_66 : stmt :=
-  (SSeq (SChoice (SSeq (SAct (AMark 703)) (SReturn 0)) SSkip) (SSeq (SLoop (SSeq (SChoice (SSeq (SAct (AMark 709)) (SReturn 0)) SSkip) (SChoice (SSeq (SAct (AMark 713)) (SReturn 0)) SSkip))) (SSeq (SChoice (SSeq (SAct (AMark 719)) (SReturn 0)) SSkip) (SSeq (SChoice (SSeq (SChoice (SSeq (SAct (AMark 724)) (SReturn 0)) SSkip) (SSeq (SAct (AMark 726)) (SReturn 0))) SSkip) (SSeq (SAct (AMark 728)) (SSeq (SReturn 0) (SReturn 0))))))).
-
-(* capnp.WeakClient.AddRef  capability.go:577 *)
-Definition core_prog_body_67 : stmt :=
-  (SSeq (SChoice (SSeq (SAct (AMark 579)) (SReturn 0)) SSkip) (SSeq (SChoice (SSeq (SAct (AMark 582)) (SReturn 0)) SSkip) (SSeq (SAct (AMark 584)) (SSeq (SAct (ALock 4)) (SSeq (SAct (AMark 585)) (SSeq (SCall 85 (* capnp.resolveHook *) SSkip (SSeq (SAct (AMark 587)) (SReturn 0))) (SSeq (SChoice (SSeq (SAct (AMark 590)) (SSeq (SAct (AUnlock 4)) (SSeq (SAct (AMark 591)) (SReturn 0)))) SSkip) (SSeq (SAct (AMark 594)) (SSeq (SAct (AUnlock 4)) (SSeq (SAct (AMark 601)) (SSeq (SReturn 0) (SReturn 0)))))))))))).
-
-(* capnp.clientHook.isResolved  capability.go:464 *)
-Definition core_prog_body_68 : stmt :=
-  (SSeq (SChoice (SSeq (SAct (AMark 467)) (SReturn 0)) (SSeq (SAct (AMark 469)) (SReturn 0))) (SReturn 0)).
-
-(* capnp.clientPath.transform  answer.go:785 *)
-Definition core_prog_body_69 : stmt :=
-  (SSeq (SLoop SSkip) (SSeq (SAct (AMark 790)) (SSeq (SReturn 0) (SReturn 0)))).
-
-(* capnp.clientPathFromTransform  answer.go:776 *)
-Definition core_prog_body_70 : stmt :=
-  (SSeq (SLoop SSkip) (SSeq (SAct (AMark 782)) (SSeq (SReturn 0) (SReturn 0)))).
-
-(* capnp.errorClient.Brand  capability.go:786 *)
-Definition core_prog_body_71 : stmt :=
-  (SSeq (SAct (AMark 787)) (SSeq (SReturn 0) (SReturn 0))).
-
-(* capnp.errorClient.Recv  capability.go:781 *)
-Definition core_prog_body_72 : stmt :=
-  (SSeq (SAct (AMark 782)) (SSeq (SCall 63 (* capnp.Recv.Reject *) SSkip SSkip) (SSeq (SAct (AMark 783)) (SSeq (SReturn 0) (SReturn 0))))).
-
-(* capnp.errorClient.Send  capability.go:777 *)
-Definition core_prog_body_73 : stmt :=
-  (SSeq (SAct (AMark 778)) (SSeq (SReturn 0) (SReturn 0))).
-
-(* capnp.errorClient.Send$1  capability.go:778 *)
-Definition core_prog_body_74 : stmt :=
-  (SReturn 0).
-
-(* capnp.errorClient.Shutdown  capability.go:790 *)
-Definition core_prog_body_75 : stmt :=
-  (SReturn 0).
-
-(* capnp.finalizeClient  capability.go:486 *)
-Definition core_prog_body_76 : stmt :=
-  (SSeq (SChoice (SSeq (SAct (AMark 490)) (SReturn 0)) SSkip) (SReturn 0)).
-
-(* capnp.newClosedSignal  capability.go:793 *)
-Definition core_prog_body_77 : stmt :=
-  (SSeq (SAct (AMark 796)) (SSeq (SReturn 0) (SReturn 0))).
-
-(* capnp.pipelineClient.Brand  answer.go:663 *)
-Definition core_prog_body_78 : stmt :=
-  (SSeq (SChoice (SSeq (SAct (AMark 666)) (SSeq (SAct (ALock 1)) (SSeq (SAct (AMark 668)) (SSeq (SAct (AUnlock 1)) (SSeq (SAct (AMark 669)) (SSeq (SCall 20 (* capnp.Client.State *) SSkip SSkip) (SSeq (SAct (AMark 669)) (SReturn 0)))))))) (SSeq (SAct (AMark 672)) (SReturn 0))) (SReturn 0)).
-
-(* capnp.pipelineClient.Recv  answer.go:659 *)
-Definition core_prog_body_79 : stmt :=
-  (SSeq (SAct (AMark 660)) (SSeq (SCall 4 (* capnp.Answer.PipelineRecv *) SSkip SSkip) (SSeq (SAct (AMark 660)) (SSeq (SReturn 0) (SReturn 0))))).
-
-(* capnp.pipelineClient.Send  answer.go:655 *)
-Definition core_prog_body_80 : stmt :=
-  (SSeq (SAct (AMark 656)) (SSeq (SCall 5 (* capnp.Answer.PipelineSend *) SSkip SSkip) (SSeq (SAct (AMark 656)) (SSeq (SReturn 0) (SReturn 0))))).
-
-(* capnp.pipelineClient.Shutdown  answer.go:676 *)
-Definition core_prog_body_81 : stmt :=
-  (SReturn 0).
-
-(* capnp.resolution.client  answer.go:757 *)
-Definition core_prog_body_82 : stmt :=
-  (SSeq (SAct (AMark 758)) (SSeq (SChoice (SSeq (SAct (AMark 760)) (SReturn 0)) SSkip) (SSeq (SChoice SSkip (SAct (AMark 763))) (SSeq (SChoice (SSeq (SAct (AMark 764)) (SReturn 0)) SSkip) (SSeq (SAct (AMark 766)) (SSeq (SReturn 0) (SReturn 0))))))).
-
-(* capnp.resolution.ptr  answer.go:739 *)
-Definition core_prog_body_83 : stmt :=
-  (SSeq (SChoice (SSeq (SAct (AMark 741)) (SReturn 0)) SSkip) (SSeq (SAct (AMark 743)) (SSeq (SChoice (SSeq (SAct (AMark 745)) (SReturn 0)) SSkip) (SSeq (SAct (AMark 747)) (SSeq (SReturn 0) (SReturn 0)))))).
-
-(* capnp.resolution.struct_  answer.go:751 *)
-Definition core_prog_body_84 : stmt :=
-  (SSeq (SAct (AMark 753)) (SSeq (SReturn 0) (SReturn 0))).
-
-(* capnp.resolveHook  capability.go:224 *)
-Definition core_prog_body_85 : stmt :=
-  (SSeq (SLoop (SSeq (SAct (AMark 226)) (SSeq (SChoice (SSeq (SAct (AMark 227)) (SReturn 0)) SSkip) (SSeq (SChoice (SSeq (SAct (AMark 231)) (SReturn 0)) SSkip) (SSeq (SAct (AMark 233)) (SSeq (SAct (AUnlock 4)) (SSeq (SChoice (SSeq (SAct (AMark 236)) (SReturn 1)) SSkip) (SSeq (SAct (AMark 238)) (SAct (ALock 4)))))))))) (SReturn 0)).
-
-(* server.Call.Ack  server/server.go:72 *)
-Definition core_prog_body_86 : stmt :=
-  (SSeq (SChoice (SSeq (SAct (AMark 74)) (SReturn 0)) SSkip) (SReturn 0)).
-
-(* server.Call.AllocResults  server/server.go:52 *)
-Definition core_prog_body_87 : stmt :=
-  (SSeq (SChoice (SSeq (SAct (AMark 54)) (SReturn 0)) SSkip) (SSeq (SAct (AMark 58)) (SSeq (SAct (ACallout)) (SSeq (SAct (AMark 59)) (SSeq (SReturn 0) (SReturn 0)))))).
-
-(* server.Call.Args  server/server.go:46 *)
-Definition core_prog_body_88 : stmt :=
-  (SSeq (SAct (AMark 47)) (SSeq (SReturn 0) (SReturn 0))).
-
-(* server.IsServer  server/server.go:359 *)
-Definition core_prog_body_89 : stmt :=
-  (SSeq (SAct (AMark 361)) (SSeq (SReturn 0) (SReturn 0))).
-
-(* server.New  server/server.go:145 *)
-Definition core_prog_body_90 : stmt :=
-  (SSeq (SAct (AMark 163)) (SSeq (SReturn 0) (SReturn 0))).
-
-(* server.Server.Brand  server/server.go:325 *)
-Definition core_prog_body_91 : stmt :=
-  (SSeq (SAct (AMark 326)) (SSeq (SReturn 0) (SReturn 0))).
-
-(* server.Server.Recv  server/server.go:191 *)
-Definition core_prog_body_92 : stmt :=
-  (SSeq (SAct (AMark 192)) (SSeq (SChoice (SSeq (SAct (AMark 194)) (SSeq (SCall 63 (* capnp.Recv.Reject *) SSkip SSkip) (SSeq (SAct (AMark 195)) (SReturn 0)))) SSkip) (SSeq (SAct (AMark 197)) (SSeq (SCall 100 (* server.Server.start *) SSkip SSkip) (SSeq (SAct (AMark 197)) (SSeq (SReturn 0) (SReturn 0))))))).
-
-(* server.Server.Send  server/server.go:167 *)
-Definition core_prog_body_93 : stmt :=
-  (SSeq (SAct (AMark 168)) (SSeq (SChoice (SSeq (SAct (AMark 170)) (SReturn 0)) SSkip) (SSeq (SAct (AMark 172)) (SSeq (SCall 124 (* server.sendArgsToStruct *) SSkip SSkip) (SSeq (SChoice (SSeq (SAct (AMark 174)) (SReturn 0)) SSkip) (SSeq (SAct (AMark 177)) (SSeq (SCall 100 (* server.Server.start *) SSkip SSkip) (SSeq (SAct (AMark 177)) (SSeq (SCall 132 (* server.structReturner.answer *) SSkip SSkip) (SSeq (SAct (AMark 177)) (SSeq (SReturn 0) (SReturn 0)))))))))))).
-
-(* server.Server.Send$1  server/server.go:170 *)
-Definition core_prog_body_94 : stmt :=
-  (SReturn 0).
-
-(* server.Server.Send$2  server/server.go:174 *)
-Definition core_prog_body_95 : stmt :=
-  (SReturn 0).
-
-(* server.Server.Send$3  server/server.go:180 *)
-Definition core_prog_body_96 : stmt :=
-  (SReturn 0).
-
-(* server.Server.Shutdown  server/server.go:332 *)
-Definition core_prog_body_97 : stmt :=
-  (SSeq (SAct (AMark 333)) (SSeq (SAct (ALock 5)) (SSeq (SChoice (SSeq (SAct (AMark 335)) (SSeq (SAct (AUnlock 5)) (SSeq (SAct (AMark 336)) SPanic))) SSkip) (SSeq (SAct (AMark 339)) (SSeq (SChoice (SSeq (SLoop SSkip) (SSeq (SAct (AMark 345)) (SSeq (SAct (AUnlock 5)) (SSeq (SAct (AMark 346)) (SAct (AWait)))))) (SSeq (SAct (AMark 349)) (SAct (AUnlock 5)))) (SSeq (SChoice (SSeq (SAct (AMark 352)) (SAct (ACallout))) SSkip) (SReturn 0))))))).
-
-(* server.Server.hasOngoing  server/server.go:315 *)
-Definition core_prog_body_98 : stmt :=
-  (SSeq (SLoop (SChoice (SSeq (SAct (AMark 318)) (SReturn 0)) SSkip)) (SSeq (SAct (AMark 321)) (SSeq (SReturn 0) (SReturn 0)))).
-
-(* server.Server.nextID  server/server.go:304 *)
-Definition core_prog_body_99 : stmt :=
-  (SSeq (SLoop (SChoice (SSeq (SAct (AMark 307)) (SReturn 0)) SSkip)) (SSeq (SAct (AMark 310)) (SSeq (SReturn 0) (SReturn 0)))).
-
-(* server.Server.start  server/server.go:200 *)
-Definition core_prog_body_100 : stmt :=
-  (SSeq (SAct (AMark 202)) (SSeq (SAct (ALock 5)) (SSeq (SLoop (SSeq (SChoice (SSeq (SAct (AMark 205)) (SSeq (SAct (AUnlock 5)) (SSeq (SAct (AMark 206)) (SSeq (SCall 63 (* capnp.Recv.Reject *) SSkip SSkip) (SSeq (SAct (AMark 207)) (SReturn 0)))))) SSkip) (SSeq (SChoice SBreak SSkip) (SSeq (SAct (AMark 213)) (SSeq (SAct (AUnlock 5)) (SSeq (SAct (AMark 214)) (SSeq (SAct (AWait)) (SSeq (SChoice SSkip (SSeq (SAct (AMark 217)) (SSeq (SCall 63 (* capnp.Recv.Reject *) SSkip SSkip) (SSeq (SAct (AMark 218)) (SReturn 0))))) (SSeq (SAct (AMark 220)) (SAct (ALock 5))))))))))) (SSeq (SAct (AMark 226)) (SSeq (SChoice (SSeq (SAct (AMark 230)) (SSeq (SAct (AUnlock 5)) (SSeq (SAct (AMark 231)) (SSeq (SAct (AWait)) (SSeq (SChoice SSkip (SSeq (SAct (AMark 234)) (SSeq (SAct (ALock 5)) (SSeq (SAct (AMark 238)) (SSeq (SAct (AUnlock 5)) (SSeq (SAct (AMark 239)) (SSeq (SCall 63 (* capnp.Recv.Reject *) SSkip SSkip) (SSeq (SAct (AMark 240)) (SReturn 0))))))))) (SSeq (SAct (AMark 242)) (SSeq (SAct (ALock 5)) (SSeq (SAct (AMark 243)) (SChoice (SSeq (SAct (AMark 247)) (SSeq (SAct (AUnlock 5)) (SSeq (SAct (AMark 248)) (SSeq (SCall 63 (* capnp.Recv.Reject *) SSkip SSkip) (SSeq (SAct (AMark 249)) (SReturn 0)))))) SSkip))))))))) SSkip) (SSeq (SAct (AMark 257)) (SSeq (SAct (AUnlock 5)) (SSeq (SAct (AMark 263)) (SSeq (SSpawn 101 (* server.Server.start$1 *)) (SSeq (SAct (AMark 287)) (SSeq (SAct (AWait)) (SSeq (SAct (AMark 294)) (SSeq (SAct (ALock 5)) (SSeq (SAct (AMark 297)) (SSeq (SAct (AUnlock 5)) (SSeq (SAct (AMark 298)) (SSeq (SReturn 0) (SReturn 0)))))))))))))))))).
-
-(* server.Server.start$1  server/server.go:263 *)
-Definition core_prog_body_101 : stmt :=
-  (SSeq (SAct (AMark 264)) (SSeq (SAct (ACallout)) (SSeq (SAct (AMark 265)) (SSeq (SAct (ACallout)) (SSeq (SChoice (SSeq (SAct (AMark 267)) (SSeq (SCall 104 (* server.answerQueue.fulfill *) SSkip SSkip) (SSeq (SAct (AMark 268)) (SAct (ACallout))))) (SSeq (SAct (AMark 270)) (SSeq (SCall 106 (* server.answerQueue.reject *) SSkip SSkip) (SSeq (SAct (AMark 271)) (SAct (ACallout)))))) (SSeq (SAct (AMark 273)) (SSeq (SAct (ALock 5)) (SSeq (SChoice SSkip (SAct (AMark 276))) (SSeq (SAct (AMark 283)) (SSeq (SAct (AUnlock 5)) (SReturn 0))))))))))).
-
-(* server.answerQueue.PipelineRecv  server/answer.go:133 *)
-Definition core_prog_body_102 : stmt :=
-  (SSeq (SAct (AMark 134)) (SSeq (SCall 115 (* server.queueCaller.PipelineRecv *) SSkip SSkip) (SSeq (SAct (AMark 134)) (SSeq (SReturn 0) (SReturn 0))))).
-
-(* server.answerQueue.PipelineSend  server/answer.go:137 *)
-Definition core_prog_body_103 : stmt :=
-  (SSeq (SAct (AMark 138)) (SSeq (SCall 116 (* server.queueCaller.PipelineSend *) SSkip SSkip) (SSeq (SAct (AMark 138)) (SSeq (SReturn 0) (SReturn 0))))).
-
-(* server.answerQueue.fulfill  server/answer.go:58 *)
-Definition core_prog_body_104 : stmt :=
-  (SSeq (SAct (AMark 60)) (SSeq (SAct (ALock 6)) (SSeq (SLoop SSkip) (SSeq (SAct (AMark 71)) (SSeq (SAct (AUnlock 6)) (SSeq (SLoop (SSeq (SAct (AMark 80)) (SAct (ACallout)))) (SSeq (SLoop (SSeq (SAct (AMark 93)) (SSpawn 105 (* server.answerQueue.fulfill$1 *)))) (SReturn 0)))))))).
-
-(* server.answerQueue.fulfill$1  server/answer.go:93 *)
-Definition core_prog_body_105 : stmt :=
-  (SSeq (SAct (AMark 94)) (SSeq (SAct (AWait)) (SSeq (SAct (AMark 95)) (SSeq (SAct (ALock 8)) (SSeq (SAct (AMark 97)) (SSeq (SAct (AUnlock 8)) (SSeq (SAct (AMark 98)) (SSeq (SAct (ACallout)) (SReturn 0))))))))).
-
-(* server.answerQueue.reject  server/answer.go:104 *)
-Definition core_prog_body_106 : stmt :=
-  (SSeq (SChoice (SSeq (SAct (AMark 106)) SPanic) SSkip) (SSeq (SAct (AMark 110)) (SSeq (SAct (ALock 6)) (SSeq (SLoop SSkip) (SSeq (SAct (AMark 125)) (SSeq (SAct (AUnlock 6)) (SSeq (SLoop (SSeq (SAct (AMark 129)) (SCall 63 (* capnp.Recv.Reject *) SSkip SSkip))) (SReturn 0)))))))).
-
-(* server.answerQueue.reject$1  server/answer.go:119 *)
-Definition core_prog_body_107 : stmt :=
-  (SSeq (SAct (AMark 120)) (SSeq (SCall 63 (* capnp.Recv.Reject *) SSkip SSkip) (SSeq (SAct (AMark 121)) (SSeq (SReturn 0) (SReturn 0))))).
-
-(* server.clientPath.transform  server/answer.go:369 *)
-Definition core_prog_body_108 : stmt :=
-  (SSeq (SLoop SSkip) (SSeq (SAct (AMark 374)) (SSeq (SReturn 0) (SReturn 0)))).
-
-(* server.clientPathFromTransform  server/answer.go:360 *)
-Definition core_prog_body_109 : stmt :=
-  (SSeq (SLoop SSkip) (SSeq (SAct (AMark 366)) (SSeq (SReturn 0) (SReturn 0)))).
-
-(* server.errorf  server/server.go:440 *)
-Definition core_prog_body_110 : stmt :=
-  (SSeq (SAct (AMark 441)) (SSeq (SReturn 0) (SReturn 0))).
-
-(* server.newAnswerQueue  server/answer.go:47 *)
-Definition core_prog_body_111 : stmt :=
-  (SSeq (SAct (AMark 48)) (SSeq (SReturn 0) (SReturn 0))).
-
-(* server.newBlankStruct  server/server.go:384 *)
-Definition core_prog_body_112 : stmt :=
-  (SSeq (SChoice (SSeq (SAct (AMark 387)) (SReturn 0)) SSkip) (SSeq (SChoice (SSeq (SAct (AMark 391)) (SReturn 0)) SSkip) (SSeq (SAct (AMark 393)) (SSeq (SReturn 0) (SReturn 0))))).
-
-(* server.newCall  server/server.go:34 *)
-Definition core_prog_body_113 : stmt :=
-  (SSeq (SAct (AMark 36)) (SSeq (SReturn 0) (SReturn 0))).
-
-(* server.newError  server/server.go:436 *)
-Definition core_prog_body_114 : stmt :=
-  (SSeq (SAct (AMark 437)) (SSeq (SReturn 0) (SReturn 0))).
-
-(* server.queueCaller.PipelineRecv  server/answer.go:147 *)
-Definition core_prog_body_115 : stmt :=
-  (SSeq (SAct (AMark 148)) (SSeq (SAct (ALock 6)) (SSeq (SChoice (SSeq (SAct (AMark 152)) (SSeq (SAct (AUnlock 6)) (SSeq (SAct (AMark 153)) (SSeq (SAct (AWait)) (SSeq (SChoice SSkip (SSeq (SAct (AMark 156)) (SSeq (SCall 63 (* capnp.Recv.Reject *) SSkip SSkip) (SSeq (SAct (AMark 157)) (SReturn 0))))) (SSeq (SAct (AMark 159)) (SSeq (SAct (ALock 6)) (SSeq (SChoice (SSeq (SAct (AMark 161)) SPanic) SSkip) (SSeq (SAct (AMark 166)) (SSeq (SAct (AUnlock 6)) (SSeq (SAct (AMark 168)) (SSeq (SAct (AWait)) (SSeq (SChoice SSkip (SSeq (SAct (AMark 171)) (SSeq (SCall 63 (* capnp.Recv.Reject *) SSkip SSkip) (SSeq (SAct (AMark 172)) (SReturn 0))))) (SSeq (SAct (AMark 174)) (SSeq (SAct (ACallout)) (SSeq (SAct (AMark 174)) (SReturn 0))))))))))))))))) (SChoice (SSeq (SAct (AMark 166)) (SSeq (SAct (AUnlock 6)) (SSeq (SAct (AMark 168)) (SSeq (SAct (AWait)) (SSeq (SChoice SSkip (SSeq (SAct (AMark 171)) (SSeq (SCall 63 (* capnp.Recv.Reject *) SSkip SSkip) (SSeq (SAct (AMark 172)) (SReturn 0))))) (SSeq (SAct (AMark 174)) (SSeq (SAct (ACallout)) (SSeq (SAct (AMark 174)) (SReturn 0))))))))) (SSeq (SAct (AMark 184)) (SSeq (SAct (AUnlock 6)) (SSeq (SAct (AMark 185)) (SReturn 0)))))) (SReturn 0)))).
-
-(* server.queueCaller.PipelineSend  server/answer.go:189 *)
-Definition core_prog_body_116 : stmt :=
-  (SSeq (SChoice (SSeq (SAct (AMark 197)) (SSeq (SChoice (SSeq (SAct (AMark 199)) (SReturn 0)) SSkip) (SSeq (SAct (AMark 201)) (SSeq (SAct (ACallout)) (SChoice (SSeq (SAct (AMark 202)) (SReturn 0)) SSkip))))) SSkip) (SSeq (SAct (AMark 210)) (SSeq (SCall 115 (* server.queueCaller.PipelineRecv *) SSkip SSkip) (SSeq (SAct (AMark 211)) (SSeq (SCall 132 (* server.structReturner.answer *) SSkip SSkip) (SSeq (SAct (AMark 211)) (SSeq (SReturn 0) (SReturn 0)))))))).
-
-(* server.queueCaller.PipelineSend$1  server/answer.go:199 *)
-Definition core_prog_body_117 : stmt :=
-  (SReturn 0).
-
-(* server.queueCaller.PipelineSend$2  server/answer.go:202 *)
-Definition core_prog_body_118 : stmt :=
-  (SReturn 0).
-
-(* server.queueCaller.PipelineSend$3  server/answer.go:204 *)
-Definition core_prog_body_119 : stmt :=
-  (SReturn 0).
-
-(* server.queueCaller.PipelineSend$4  server/answer.go:208 *)
-Definition core_prog_body_120 : stmt :=
-  (SReturn 0).
-
-(* server.returnEmbargoer.AllocResults  server/answer.go:317 *)
-Definition core_prog_body_121 : stmt :=
-  (SSeq (SAct (AMark 318)) (SSeq (SAct (ACallout)) (SSeq (SAct (AMark 319)) (SSeq (SAct (ALock 8)) (SSeq (SAct (AMark 321)) (SSeq (SAct (AUnlock 8)) (SSeq (SAct (AMark 322)) (SSeq (SReturn 0) (SReturn 0))))))))).
-
-(* server.returnEmbargoer.Return  server/answer.go:325 *)
-Definition core_prog_body_122 : stmt :=
-  (SSeq (SAct (AMark 326)) (SSeq (SAct (ALock 8)) (SSeq (SAct (AMark 329)) (SSeq (SAct (AUnlock 8)) (SSeq (SAct (AMark 330)) (SSeq (SAct (AWait)) (SReturn 0))))))).
-
-(* server.returnEmbargoer.recv  server/answer.go:335 *)
-Definition core_prog_body_123 : stmt :=
-  (SSeq (SAct (AMark 336)) (SSeq (SAct (ALock 8)) (SSeq (SChoice (SSeq (SAct (AMark 339)) (SSeq (SAct (AUnlock 8)) (SSeq (SChoice (SSeq (SAct (AMark 341)) (SSeq (SCall 63 (* capnp.Recv.Reject *) SSkip SSkip) (SSeq (SAct (AMark 342)) (SReturn 0)))) SSkip) (SSeq (SAct (AMark 344)) (SSeq (SCall 4 (* capnp.Answer.PipelineRecv *) SSkip SSkip) (SSeq (SAct (AMark 344)) (SReturn 0))))))) (SSeq (SAct (AMark 348)) (SSeq (SAct (AUnlock 8)) (SSeq (SAct (AMark 349)) (SSeq (SAct (ACallout)) (SSeq (SAct (AMark 349)) (SReturn 0))))))) (SReturn 0)))).
-
-(* server.sendArgsToStruct  server/server.go:368 *)
-Definition core_prog_body_124 : stmt :=
-  (SSeq (SChoice (SSeq (SAct (AMark 370)) (SReturn 0)) SSkip) (SSeq (SAct (AMark 372)) (SSeq (SChoice (SSeq (SAct (AMark 374)) (SReturn 0)) SSkip) (SSeq (SAct (AMark 376)) (SSeq (SAct (ACallout)) (SSeq (SChoice (SSeq (SAct (AMark 379)) (SReturn 0)) SSkip) (SSeq (SAct (AMark 381)) (SSeq (SReturn 0) (SReturn 0))))))))).
-
-(* server.sortedMethods.Len  server/server.go:417 *)
-Definition core_prog_body_125 : stmt :=
-  (SSeq (SAct (AMark 418)) (SSeq (SReturn 0) (SReturn 0))).
-
-(* server.sortedMethods.Less  server/server.go:421 *)
-Definition core_prog_body_126 : stmt :=
-  (SSeq (SChoice (SSeq (SAct (AMark 423)) (SReturn 0)) SSkip) (SSeq (SAct (AMark 425)) (SSeq (SReturn 0) (SReturn 0)))).
-
-(* server.sortedMethods.Swap  server/server.go:428 *)
-Definition core_prog_body_127 : stmt :=
-  (SReturn 0).
-
-(* server.sortedMethods.find  server/server.go:399 *)
-Definition core_prog_body_128 : stmt :=
-  (SSeq (SChoice (SSeq (SAct (AMark 408)) (SReturn 0)) SSkip) (SSeq (SChoice (SSeq (SAct (AMark 412)) (SReturn 0)) SSkip) (SSeq (SAct (AMark 414)) (SSeq (SReturn 0) (SReturn 0))))).
-
-(* server.sortedMethods.find$1  server/server.go:400 *)
-Definition core_prog_body_129 : stmt :=
-  (SSeq (SChoice (SSeq (SAct (AMark 403)) (SReturn 0)) SSkip) (SSeq (SAct (AMark 405)) (SSeq (SReturn 0) (SReturn 0)))).
-
-(* server.structReturner.AllocResults  server/answer.go:227 *)
-Definition core_prog_body_130 : stmt :=
-  (SSeq (SAct (AMark 229)) (SSeq (SAct (ALock 7)) (SSeq (SChoice (SSeq (SAct (AMark 228)) (SSeq (SAct (AUnlock 7)) (SSeq (SAct (AMark 231)) (SReturn 0)))) SSkip) (SSeq (SAct (AMark 234)) (SSeq (SChoice (SSeq (SAct (AMark 228)) (SSeq (SAct (AUnlock 7)) (SSeq (SAct (AMark 236)) (SReturn 0)))) SSkip) (SSeq (SAct (AMark 228)) (SSeq (SAct (AUnlock 7)) (SSeq (SAct (AMark 239)) (SSeq (SReturn 0) (SSeq (SAct (AMark 228)) (SSeq (SAct (AUnlock 7)) (SReturn 0)))))))))))).
-
-(* server.structReturner.Return  server/answer.go:242 *)
-Definition core_prog_body_131 : stmt :=
-  (SSeq (SAct (AMark 243)) (SSeq (SAct (ALock 7)) (SSeq (SChoice (SSeq (SAct (AMark 245)) (SSeq (SAct (AUnlock 7)) (SSeq (SAct (AMark 246)) SPanic))) SSkip) (SSeq (SChoice (SSeq (SAct (AMark 250)) (SSeq (SAct (AUnlock 7)) (SChoice (SSeq (SAct (AMark 252)) (SCall 51 (* capnp.Promise.Fulfill *) SSkip SSkip)) SSkip))) (SSeq (SAct (AMark 258)) (SSeq (SAct (AUnlock 7)) (SChoice (SSeq (SAct (AMark 263)) (SCall 53 (* capnp.Promise.Reject *) SSkip SSkip)) SSkip)))) (SReturn 0))))).
-
-(* server.structReturner.answer  server/answer.go:270 *)
-Definition core_prog_body_132 : stmt :=
-  (SSeq (SAct (AMark 272)) (SSeq (SAct (ALock 7)) (SSeq (SChoice (SSeq (SAct (AMark 274)) SPanic) SSkip) (SSeq (SChoice (SSeq (SChoice (SSeq (SAct (AMark 271)) (SSeq (SAct (AUnlock 7)) (SSeq (SAct (AMark 278)) (SReturn 0)))) SSkip) (SSeq (SAct (AMark 271)) (SSeq (SAct (AUnlock 7)) (SSeq (SAct (AMark 280)) (SReturn 0))))) SSkip) (SSeq (SAct (AMark 271)) (SSeq (SAct (AUnlock 7)) (SSeq (SAct (AMark 292)) (SSeq (SReturn 0) (SSeq (SAct (AMark 271)) (SSeq (SAct (AUnlock 7)) (SReturn 0))))))))))).
-
-(* server.structReturner.answer$1  server/answer.go:278 *)
-Definition core_prog_body_133 : stmt :=
-  (SReturn 0).
-
-(* server.structReturner.answer$2  server/answer.go:280 *)
-Definition core_prog_body_134 : stmt :=
-  (SSeq (SAct (AMark 281)) (SSeq (SAct (ALock 7)) (SSeq (SAct (AMark 284)) (SSeq (SAct (AUnlock 7)) (SReturn 0))))).
-
-(* server.structReturner.answer$3  server/answer.go:292 *)
-Definition core_prog_body_135 : stmt :=
-  (SSeq (SAct (AMark 293)) (SSeq (SAct (AWait)) (SSeq (SAct (AMark 294)) (SSeq (SAct (ALock 7)) (SSeq (SAct (AMark 297)) (SSeq (SAct (AUnlock 7)) (SReturn 0))))))).
-
-Definition core_prog : prog := [
-  (* 0 *) mkF "capnp.Answer.Client" true [mkC [] false 0 [mkE 0 [] false 0]] (Some core_prog_body_0);
-  (* 1 *) mkF "capnp.Answer.Done" true [mkC [] false 0 [mkE 0 [] false 0]] (Some core_prog_body_1);
-  (* 2 *) mkF "capnp.Answer.Field" true [mkC [] false 0 [mkE 0 [] false 0]] (Some core_prog_body_2);
-  (* 3 *) mkF "capnp.Answer.Future" true [mkC [] false 0 [mkE 0 [] false 0]] (Some core_prog_body_3);
-  (* 4 *) mkF "capnp.Answer.PipelineRecv" true [mkC [] false 0 [mkE 0 [] false 0]] (Some core_prog_body_4);
-  (* 5 *) mkF "capnp.Answer.PipelineSend" true [mkC [] false 0 [mkE 0 [] false 0]] (Some core_prog_body_5);
-  (* 6 *) mkF "capnp.Answer.PipelineSend$1" true [mkC [] false 0 [mkE 0 [] false 0]] (Some core_prog_body_6);
-  (* 7 *) mkF "capnp.Answer.PipelineSend$2" true [mkC [] false 0 [mkE 0 [] false 0]] (Some core_prog_body_7);
-  (* 8 *) mkF "capnp.Answer.Struct" true [mkC [] false 0 [mkE 0 [] false 0]] (Some core_prog_body_8);
-  (* 9 *) mkF "capnp.CapabilityID.GoString" true [mkC [] false 0 [mkE 0 [] false 0]] (Some core_prog_body_9);
-  (* 10 *) mkF "capnp.CapabilityID.String" true [mkC [] false 0 [mkE 0 [] false 0]] (Some core_prog_body_10);
-  (* 11 *) mkF "capnp.Client.AddRef" true [mkC [] false 0 [mkE 0 [] false 0]] (Some core_prog_body_11);
-  (* 12 *) mkF "capnp.Client.IsSame" true [mkC [] false 0 [mkE 0 [] false 0]] (Some core_prog_body_12);
-  (* 13 *) mkF "capnp.Client.IsValid" true [mkC [] false 0 [mkE 0 [] false 0]] (Some core_prog_body_13);
-  (* 14 *) mkF "capnp.Client.RecvCall" true [mkC [] false 0 [mkE 0 [] false 0]] (Some core_prog_body_14);
-  (* 15 *) mkF "capnp.Client.Release" true [mkC [] false 0 [mkE 0 [] false 0]] (Some core_prog_body_15);
-  (* 16 *) mkF "capnp.Client.Resolve" true [mkC [] false 0 [mkE 0 [] false 0]] (Some core_prog_body_16);
-  (* 17 *) mkF "capnp.Client.SendCall" true [mkC [] false 0 [mkE 0 [] false 0]] (Some core_prog_body_17);
-  (* 18 *) mkF "capnp.Client.SendCall$1" true [mkC [] false 0 [mkE 0 [] false 0]] (Some core_prog_body_18);
-  (* 19 *) mkF "capnp.Client.SendCall$2" true [mkC [] false 0 [mkE 0 [] false 0]] (Some core_prog_body_19);
-  (* 20 *) mkF "capnp.Client.State" true [mkC [] false 0 [mkE 0 [] false 0]] (Some core_prog_body_20);
-  (* 21 *) mkF "capnp.Client.String" true [mkC [] false 0 [mkE 0 [] false 0]] (Some core_prog_body_21);
-  (* 22 *) mkF "capnp.Client.WeakRef" true [mkC [] false 0 [mkE 0 [] false 0]] (Some core_prog_body_22);
-  (* 23 *) mkF "capnp.Client.peek" false [mkC [] false 0 [mkE 0 [] false 0]] (Some core_prog_body_23);
-  (* 24 *) mkF "capnp.Client.startCall" false [mkC [] false 0 [mkE 0 [] false 0]] (Some core_prog_body_24);
-  (* 25 *) mkF "capnp.Client.startCall$1" true [mkC [] false 0 [mkE 0 [] false 0]] (Some core_prog_body_25);
-  (* 26 *) mkF "capnp.Client.startCall$2" true [mkC [] false 0 [mkE 0 [] false 0]] (Some core_prog_body_26);
-  (* 27 *) mkF "capnp.Client.startCall$3" true [mkC [] false 0 [mkE 0 [] false 0]] (Some core_prog_body_27);
-  (* 28 *) mkF "capnp.Client.startCall$4" true [mkC [] false 0 [mkE 0 [] false 0]] (Some core_prog_body_28);
-  (* 29 *) mkF "capnp.ClientPromise.Fulfill" true [mkC [] false 0 [mkE 0 [] false 0]] (Some core_prog_body_29);
-  (* 30 *) mkF "capnp.ErrorAnswer" true [mkC [] false 0 [mkE 0 [] false 0]] (Some core_prog_body_30);
-  (* 31 *) mkF "capnp.ErrorClient" true [mkC [] false 0 [mkE 0 [] false 0]] (Some core_prog_body_31);
-  (* 32 *) mkF "capnp.Future.Client" true [mkC [] false 0 [mkE 0 [] false 0]] (Some core_prog_body_32);
-  (* 33 *) mkF "capnp.Future.Done" true [mkC [] false 0 [mkE 0 [] false 0]] (Some core_prog_body_33);
-  (* 34 *) mkF "capnp.Future.Field" true [mkC [] false 0 [mkE 0 [] false 0]] (Some core_prog_body_34);
-  (* 35 *) mkF "capnp.Future.Struct" true [mkC [] false 0 [mkE 0 [] false 0]] (Some core_prog_body_35);
-  (* 36 *) mkF "capnp.Future.transform" false [mkC [] false 0 [mkE 0 [] false 0]] (Some core_prog_body_36);
-  (* 37 *) mkF "capnp.ImmediateAnswer" true [mkC [] false 0 [mkE 0 [] false 0]] (Some core_prog_body_37);
-  (* 38 *) mkF "capnp.Interface.Capability" true [mkC [] false 0 [mkE 0 [] false 0]] (Some core_prog_body_38);
-  (* 39 *) mkF "capnp.Interface.Client" true [mkC [] false 0 [mkE 0 [] false 0]] (Some core_prog_body_39);
-  (* 40 *) mkF "capnp.Interface.IsValid" true [mkC [] false 0 [mkE 0 [] false 0]] (Some core_prog_body_40);
-  (* 41 *) mkF "capnp.Interface.Message" true [mkC [] false 0 [mkE 0 [] false 0]] (Some core_prog_body_41);
-  (* 42 *) mkF "capnp.Interface.ToPtr" true [mkC [] false 0 [mkE 0 [] false 0]] (Some core_prog_body_42);
-  (* 43 *) mkF "capnp.Interface.value" false [mkC [] false 0 [mkE 0 [] false 0]] (Some core_prog_body_43);
-  (* 44 *) mkF "capnp.Method.String" true [mkC [] false 0 [mkE 0 [] false 0]] (Some core_prog_body_44);
-  (* 45 *) mkF "capnp.NewClient" true [mkC [] false 0 [mkE 0 [] false 0]] (Some core_prog_body_45);
-  (* 46 *) mkF "capnp.NewInterface" true [mkC [] false 0 [mkE 0 [] false 0]] (Some core_prog_body_46);
-  (* 47 *) mkF "capnp.NewPromise" true [mkC [] false 0 [mkE 0 [] false 0]] (Some core_prog_body_47);
-  (* 48 *) mkF "capnp.NewPromisedClient" true [mkC [] false 0 [mkE 0 [] false 0]] (Some core_prog_body_48);
-  (* 49 *) mkF "capnp.PipelineOp.String" true [mkC [] false 0 [mkE 0 [] false 0]] (Some core_prog_body_49);
-  (* 50 *) mkF "capnp.Promise.Answer" true [mkC [] false 0 [mkE 0 [] false 0]] (Some core_prog_body_50);
-  (* 51 *) mkF "capnp.Promise.Fulfill" true [mkC [] false 0 [mkE 0 [] false 0]] (Some core_prog_body_51);
-  (* 52 *) mkF "capnp.Promise.Join" true [mkC [] false 0 [mkE 0 [] false 0]] (Some core_prog_body_52);
-  (* 53 *) mkF "capnp.Promise.Reject" true [mkC [] false 0 [mkE 0 [] false 0]] (Some core_prog_body_53);
-  (* 54 *) mkF "capnp.Promise.ReleaseClients" true [mkC [] false 0 [mkE 0 [] false 0]] (Some core_prog_body_54);
-  (* 55 *) mkF "capnp.Promise.isJoined" false [mkC [] false 0 [mkE 0 [] false 0]] (Some core_prog_body_55);
-  (* 56 *) mkF "capnp.Promise.isPendingJoin" false [mkC [] false 0 [mkE 0 [] false 0]] (Some core_prog_body_56);
-  (* 57 *) mkF "capnp.Promise.isPendingResolution" false [mkC [] false 0 [mkE 0 [] false 0]] (Some core_prog_body_57);
-  (* 58 *) mkF "capnp.Promise.isResolved" false [mkC [] false 0 [mkE 0 [] false 0]] (Some core_prog_body_58);
-  (* 59 *) mkF "capnp.Promise.isUnresolved" false [mkC [] false 0 [mkE 0 [] false 0]] (Some core_prog_body_59);
-  (* 60 *) mkF "capnp.Promise.resolution" false [mkC [] false 0 [mkE 0 [] false 0]] (Some core_prog_body_60);
-  (* 61 *) mkF "capnp.Promise.resolve" false [mkC [1] false 0 [mkE 0 [1] false 0]] (Some core_prog_body_61);
-  (* 62 *) mkF "capnp.Recv.AllocResults" true [mkC [] false 0 [mkE 0 [] false 0]] (Some core_prog_body_62);
-  (* 63 *) mkF "capnp.Recv.Reject" true [mkC [] false 0 [mkE 0 [] false 0]] (Some core_prog_body_63);
-  (* 64 *) mkF "capnp.Recv.Return" true [mkC [] false 0 [mkE 0 [] false 0]] (Some core_prog_body_64);
-  (* 65 *) mkF "capnp.SetClientLeakFunc" true [mkC [] false 0 [mkE 0 [] false 0]] (Some core_prog_body_65);
-  (* 66 *) mkF "capnp.Transform" true [mkC [] false 0 [mkE 0 [] false 0]] (Some core_prog_body_66);
-  (* 67 *) mkF "capnp.WeakClient.AddRef" true [mkC [] false 0 [mkE 0 [] false 0]] (Some core_prog_body_67);
-  (* 68 *) mkF "capnp.clientHook.isResolved" false [mkC [] false 0 [mkE 0 [] false 0]] (Some core_prog_body_68);
-  (* 69 *) mkF "capnp.clientPath.transform" false [mkC [] false 0 [mkE 0 [] false 0]] (Some core_prog_body_69);
-  (* 70 *) mkF "capnp.clientPathFromTransform" false [mkC [] false 0 [mkE 0 [] false 0]] (Some core_prog_body_70);
-  (* 71 *) mkF "capnp.errorClient.Brand" true [mkC [] false 0 [mkE 0 [] false 0]] (Some core_prog_body_71);
-  (* 72 *) mkF "capnp.errorClient.Recv" true [mkC [] false 0 [mkE 0 [] false 0]] (Some core_prog_body_72);
-  (* 73 *) mkF "capnp.errorClient.Send" true [mkC [] false 0 [mkE 0 [] false 0]] (Some core_prog_body_73);
-  (* 74 *) mkF "capnp.errorClient.Send$1" true [mkC [] false 0 [mkE 0 [] false 0]] (Some core_prog_body_74);
-  (* 75 *) mkF "capnp.errorClient.Shutdown" true [mkC [] false 0 [mkE 0 [] false 0]] (Some core_prog_body_75);
-  (* 76 *) mkF "capnp.finalizeClient" false [mkC [] false 0 [mkE 0 [] false 0]] (Some core_prog_body_76);
-  (* 77 *) mkF "capnp.newClosedSignal" false [mkC [] false 0 [mkE 0 [] false 0]] (Some core_prog_body_77);
-  (* 78 *) mkF "capnp.pipelineClient.Brand" true [mkC [] false 0 [mkE 0 [] false 0]] (Some core_prog_body_78);
-  (* 79 *) mkF "capnp.pipelineClient.Recv" true [mkC [] false 0 [mkE 0 [] false 0]] (Some core_prog_body_79);
-  (* 80 *) mkF "capnp.pipelineClient.Send" true [mkC [] false 0 [mkE 0 [] false 0]] (Some core_prog_body_80);
-  (* 81 *) mkF "capnp.pipelineClient.Shutdown" true [mkC [] false 0 [mkE 0 [] false 0]] (Some core_prog_body_81);
-  (* 82 *) mkF "capnp.resolution.client" false [mkC [] false 0 [mkE 0 [] false 0]] (Some core_prog_body_82);
-  (* 83 *) mkF "capnp.resolution.ptr" false [mkC [] false 0 [mkE 0 [] false 0]] (Some core_prog_body_83);
-  (* 84 *) mkF "capnp.resolution.struct_" false [mkC [] false 0 [mkE 0 [] false 0]] (Some core_prog_body_84);
-  (* 85 *) mkF "capnp.resolveHook" false [mkC [4] false 0 [mkE 0 [4] false 0; mkE 1 [] false 0]; mkC [3; 4] false 0 [mkE 0 [3; 4] false 0; mkE 1 [3] false 0]] (Some core_prog_body_85);
-  (* 86 *) mkF "server.Call.Ack" true [mkC [] false 0 [mkE 0 [] false 0]] (Some core_prog_body_86);
-  (* 87 *) mkF "server.Call.AllocResults" true [mkC [] false 0 [mkE 0 [] false 0]] (Some core_prog_body_87);
-  (* 88 *) mkF "server.Call.Args" true [mkC [] false 0 [mkE 0 [] false 0]] (Some core_prog_body_88);
-  (* 89 *) mkF "server.IsServer" true [mkC [] false 0 [mkE 0 [] false 0]] (Some core_prog_body_89);
-  (* 90 *) mkF "server.New" true [mkC [] false 0 [mkE 0 [] false 0]] (Some core_prog_body_90);
-  (* 91 *) mkF "server.Server.Brand" true [mkC [] false 0 [mkE 0 [] false 0]] (Some core_prog_body_91);
-  (* 92 *) mkF "server.Server.Recv" true [mkC [] false 0 [mkE 0 [] false 0]] (Some core_prog_body_92);
-  (* 93 *) mkF "server.Server.Send" true [mkC [] false 0 [mkE 0 [] false 0]] (Some core_prog_body_93);
-  (* 94 *) mkF "server.Server.Send$1" true [mkC [] false 0 [mkE 0 [] false 0]] (Some core_prog_body_94);
-  (* 95 *) mkF "server.Server.Send$2" true [mkC [] false 0 [mkE 0 [] false 0]] (Some core_prog_body_95);
-  (* 96 *) mkF "server.Server.Send$3" true [mkC [] false 0 [mkE 0 [] false 0]] (Some core_prog_body_96);
-  (* 97 *) mkF "server.Server.Shutdown" true [mkC [] false 0 [mkE 0 [] false 0]] (Some core_prog_body_97);
-  (* 98 *) mkF "server.Server.hasOngoing" false [mkC [] false 0 [mkE 0 [] false 0]] (Some core_prog_body_98);
-  (* 99 *) mkF "server.Server.nextID" false [mkC [] false 0 [mkE 0 [] false 0]] (Some core_prog_body_99);
-  (* 100 *) mkF "server.Server.start" false [mkC [] false 0 [mkE 0 [] false 0]] (Some core_prog_body_100);
-  (* 101 *) mkF "server.Server.start$1" true [mkC [] false 0 [mkE 0 [] false 0]] (Some core_prog_body_101);
-  (* 102 *) mkF "server.answerQueue.PipelineRecv" true [mkC [] false 0 [mkE 0 [] false 0]] (Some core_prog_body_102);
-  (* 103 *) mkF "server.answerQueue.PipelineSend" true [mkC [] false 0 [mkE 0 [] false 0]] (Some core_prog_body_103);
-  (* 104 *) mkF "server.answerQueue.fulfill" false [mkC [] false 0 [mkE 0 [] false 0]] (Some core_prog_body_104);
-  (* 105 *) mkF "server.answerQueue.fulfill$1" true [mkC [] false 0 [mkE 0 [] false 0]] (Some core_prog_body_105);
-  (* 106 *) mkF "server.answerQueue.reject" false [mkC [] false 0 [mkE 0 [] false 0]] (Some core_prog_body_106);
-  (* 107 *) mkF "server.answerQueue.reject$1" true [mkC [] false 0 [mkE 0 [] false 0]] (Some core_prog_body_107);
-  (* 108 *) mkF "server.clientPath.transform" false [mkC [] false 0 [mkE 0 [] false 0]] (Some core_prog_body_108);
-  (* 109 *) mkF "server.clientPathFromTransform" false [mkC [] false 0 [mkE 0 [] false 0]] (Some core_prog_body_109);
-  (* 110 *) mkF "server.errorf" false [mkC [] false 0 [mkE 0 [] false 0]] (Some core_prog_body_110);
-  (* 111 *) mkF "server.newAnswerQueue" false [mkC [] false 0 [mkE 0 [] false 0]] (Some core_prog_body_111);
-  (* 112 *) mkF "server.newBlankStruct" false [mkC [] false 0 [mkE 0 [] false 0]] (Some core_prog_body_112);
-  (* 113 *) mkF "server.newCall" false [mkC [] false 0 [mkE 0 [] false 0]] (Some core_prog_body_113);
-  (* 114 *) mkF "server.newError" false [mkC [] false 0 [mkE 0 [] false 0]] (Some core_prog_body_114);
-  (* 115 *) mkF "server.queueCaller.PipelineRecv" true [mkC [] false 0 [mkE 0 [] false 0]] (Some core_prog_body_115);
-  (* 116 *) mkF "server.queueCaller.PipelineSend" true [mkC [] false 0 [mkE 0 [] false 0]] (Some core_prog_body_116);
-  (* 117 *) mkF "server.queueCaller.PipelineSend$1" true [mkC [] false 0 [mkE 0 [] false 0]] (Some core_prog_body_117);
-  (* 118 *) mkF "server.queueCaller.PipelineSend$2" true [mkC [] false 0 [mkE 0 [] false 0]] (Some core_prog_body_118);
-  (* 119 *) mkF "server.queueCaller.PipelineSend$3" true [mkC [] false 0 [mkE 0 [] false 0]] (Some core_prog_body_119);
-  (* 120 *) mkF "server.queueCaller.PipelineSend$4" true [mkC [] false 0 [mkE 0 [] false 0]] (Some core_prog_body_120);
-  (* 121 *) mkF "server.returnEmbargoer.AllocResults" true [mkC [] false 0 [mkE 0 [] false 0]] (Some core_prog_body_121);
-  (* 122 *) mkF "server.returnEmbargoer.Return" true [mkC [] false 0 [mkE 0 [] false 0]] (Some core_prog_body_122);
-  (* 123 *) mkF "server.returnEmbargoer.recv" false [mkC [] false 0 [mkE 0 [] false 0]] (Some core_prog_body_123);
-  (* 124 *) mkF "server.sendArgsToStruct" false [mkC [] false 0 [mkE 0 [] false 0]] (Some core_prog_body_124);
-  (* 125 *) mkF "server.sortedMethods.Len" true [mkC [] false 0 [mkE 0 [] false 0]] (Some core_prog_body_125);
-  (* 126 *) mkF "server.sortedMethods.Less" true [mkC [] false 0 [mkE 0 [] false 0]] (Some core_prog_body_126);
-  (* 127 *) mkF "server.sortedMethods.Swap" true [mkC [] false 0 [mkE 0 [] false 0]] (Some core_prog_body_127);
-  (* 128 *) mkF "server.sortedMethods.find" false [mkC [] false 0 [mkE 0 [] false 0]] (Some core_prog_body_128);
-  (* 129 *) mkF "server.sortedMethods.find$1" true [mkC [] false 0 [mkE 0 [] false 0]] (Some core_prog_body_129);
-  (* 130 *) mkF "server.structReturner.AllocResults" true [mkC [] false 0 [mkE 0 [] false 0]] (Some core_prog_body_130);
-  (* 131 *) mkF "server.structReturner.Return" true [mkC [] false 0 [mkE 0 [] false 0]] (Some core_prog_body_131);
-  (* 132 *) mkF "server.structReturner.answer" false [mkC [] false 0 [mkE 0 [] false 0]] (Some core_prog_body_132);
-  (* 133 *) mkF "server.structReturner.answer$1" true [mkC [] false 0 [mkE 0 [] false 0]] (Some core_prog_body_133);
-  (* 134 *) mkF "server.structReturner.answer$2" true [mkC [] false 0 [mkE 0 [] false 0]] (Some core_prog_body_134);
-  (* 135 *) mkF "server.structReturner.answer$3" true [mkC [] false 0 [mkE 0 [] false 0]] (Some core_prog_body_135)
-].
+Definition core_prog : prog := [ mkF "TRANSLATOR FAILED CLOSED in server.returnEmbargoer.Return" true [mkC [0] false 0 []] None ].
